@@ -160,3 +160,38 @@ func minU32(a, b uint32) uint32 {
 	}
 	return b
 }
+
+// Reset of a table that was filled through the real Add path (growing from capacity 4 by
+// doubling) to lengths below, at and above the 64-row threshold where column.Reset switches
+// strategy: afterwards every cell of every column up to the capacity is zero, for the
+// trivial and the pointer-bearing column, and the table can be refilled with zero-initialised rows.
+func vTableResetAfterGrowth(n uint32) {
+	W := vNewWorld(vTCap, vTCap, 0)
+	h := W.u.NewEntity(W.id[cA], W.id[cP])
+	W.w.RemoveEntity(h)
+	T := &vTab{W: W}
+	for i := range W.w.storage.tables {
+		if W.w.storage.tables[i].Has(W.id[cP]) {
+			T.t = &W.w.storage.tables[i]
+		}
+	}
+	x := vU32("x")
+	vassume(x != 0)
+	var cell uint32
+	for r := uint32(0); r < n; r++ {
+		row := T.t.Add(Entity{entityID(r + 2), 0})
+		*T.colPos(uintptr(row)) = vPos{x, r + 1}
+		*T.colPtr(uintptr(row)) = vPtrC{&cell, r + 1}
+	}
+	vcheck("filled", T.t.len == n && T.t.cap >= n)
+	T.t.Reset()
+	vcheck("len-zero", T.t.len == 0)
+	vcheck("all-cells-zero-up-to-capacity", vpure(func() bool { return T.zeroFrom(0) }))
+	row := T.t.Add(Entity{2, 1})
+	vcheck("refilled-row-zero-initialised", *T.colPos(uintptr(row)) == vPos{} && *T.colPtr(uintptr(row)) == vPtrC{})
+	vreach("end")
+}
+
+func VerifC11_TableResetAfterGrowth() {
+	vTableResetAfterGrowth([]uint32{1, 3, 5, 64, 65, 100}[vPick("rows", 6)])
+}
